@@ -511,7 +511,8 @@ Proof.
   destruct (partition1 63 (c :: loc')) as [[p sep] q].
   set (l := if sep then _ else _).
   destruct (catch_value_as_http _) as [s|k'] eqn:E.
-  - destruct (url_hostname _); [discriminate|].
+  - destruct (starts_with [47; 47] (u_path s)); [congruence|].
+    destruct (url_hostname _); [discriminate|].
     destruct (norm_host_port _) as [h|k''] eqn:E2.
     + destruct (resolves n h); [discriminate|congruence].
     + intros H. injection H as <-. eapply norm_host_port_exc; eauto.
